@@ -183,6 +183,32 @@ macro_rules! inst { ($n:ident, $u:literal, $f:ident, $($g:tt)*) => { #[kani::pro
 //@ prefix=canary kind=canary clause=vacuity canary
 /*INSTANCES*/
 
+/// records what a formatter writes
+struct Sink { buf: [u8; 16], n: usize, overflow: bool }
+impl core::fmt::Write for Sink {
+    fn write_str(&mut self, s: &str) -> core::fmt::Result {
+        let b = s.as_bytes();
+        let mut i = 0;
+        while i < b.len() { if self.n < 16 { self.buf[self.n] = b[i]; self.n += 1; } else { self.overflow = true; } i += 1; }
+        Ok(())
+    }
+}
+/// reading back through Display (`{}`, what to_string() uses) gives exactly the prefix
+fn display_reads_back(s: &ReprCString, b: &[u8]) {
+    use core::fmt::Write;
+    let p = prefix_len(b);
+    let mut k = Sink { buf: [0; 16], n: 0, overflow: false };
+    let r = write!(k, "{}", s);
+    assert!(r.is_ok() && !k.overflow && k.n == p, "C14 Display writes exactly the prefix's bytes");
+    let mut i = 0;
+    while i < p { assert!(k.buf[i] == b[i], "C14 Display reads back as the prefix (byte for byte, multi-byte sequences included)"); i += 1; }
+    let rc: &ReprCStr = s.borrow();
+    let mut k2 = Sink { buf: [0; 16], n: 0, overflow: false };
+    let r2 = write!(k2, "{}", rc);
+    assert!(r2.is_ok() && k2.n == p, "C14 Display of the borrowed ReprCStr writes exactly the prefix's bytes");
+    let mut i = 0;
+    while i < p { assert!(k2.buf[i] == b[i], "C14 Display of the borrowed ReprCStr reads back as the prefix"); i += 1; }
+}
 /// concrete inputs (constant-folded by CBMC): longer strings, multi-byte sequences, interior and
 /// trailing NULs, no terminator.  All obligations of the symbolic harnesses, on fixed data.
 fn table_case(b: &[u8]) {
@@ -206,6 +232,8 @@ fn table_case(b: &[u8]) {
     s5.clone_from(&s1);
     well_formed(&s5, b);
 }
+//@ prefix=t_display kind=property clause=reading back through Display (what to_string() uses), for ReprCString and the borrowed ReprCStr: exactly the bytes of the prefix, multi-byte sequences included
+#[kani::proof] #[kani::unwind(9)] fn t_display_a() { let b = "h\u{e9}l\0o".as_bytes(); let s = ReprCString::from(b); display_reads_back(&s, b); let b2 = "\u{20ac}".as_bytes(); let s2 = ReprCString::from(unsafe { core::str::from_utf8_unchecked(b2) }); display_reads_back(&s2, b2); kani::cover!(true, "end"); }
 //@ prefix=t_table kind=property clause=concrete table (lengths up to 9, multi-byte, interior/trailing NUL, unterminated): buffer contents, read-back, clone, equality, dealloc-size and leak obligations
 #[kani::proof] #[kani::unwind(9)] fn t_table_a() { table_case(b"ab\0cd"); table_case("h\u{e9}l\0o".as_bytes()); kani::cover!(true, "end"); }
 //@thorough-begin
